@@ -166,11 +166,11 @@ def cur (s : St) : Option Res :=
       | _ => none
     | none => none
 
-/-- a call within the scope of the single-assignment property: Fulfill of a non-nil value,
-    Fail with a non-nil error, Wait -/
+/-- a call within the scope of the single-assignment property: Fulfill, Fail (any values, nil
+    included: the message `{nil, nil}` counts as set), Wait -/
 def Call.inScope : Call → Bool
-  | .fulfill (some _) => true
-  | .fail _ (some _) => true
+  | .fulfill _ => true
+  | .fail _ _ => true
   | .wait => true
   | _ => false
 
